@@ -34,6 +34,7 @@
 #include <limits.h>
 #include <stdio.h>
 #include <string.h>
+#include <strings.h>
 #include <dirent.h>
 #include <sys/stat.h>
 
@@ -808,7 +809,33 @@ libeconf_setValue(UInt64, uint64_t, &value)
 libeconf_setValue(Float, float, &value)
 libeconf_setValue(Double, double, &value)
 libeconf_setValue(String, const char *, value)
-libeconf_setValue(Bool, const char *, value)
+
+/* A value which is not a boolean has to be refused before an entry is
+   created for it. */
+static bool is_bool_value(const char *value) {
+  static const char *valid[] = { "1", "yes", "true", "0", "no", "false",
+				 KEY_FILE_NULL_VALUE, "" };
+  if (value == NULL)
+    return true;
+  for (size_t i = 0; i < sizeof(valid) / sizeof(valid[0]); i++)
+    if (strcasecmp(value, valid[i]) == 0)
+      return true;
+  return false;
+}
+
+econf_err econf_setBoolValue(econf_file *kf, const char *group,
+			     const char *key, const char *value) {
+  if (!kf)
+    return ECONF_FILE_LIST_IS_NULL;
+  if (!key || strlen(key)<= 0)
+    return ECONF_EMPTYKEY;
+  if (!is_bool_value(value))
+    return ECONF_WRONG_BOOLEAN_VALUE;
+  char *grp = group ? strdup(group) : NULL;
+  econf_err ret = setKeyValue(setBoolValueNum, kf, stripbrackets(grp), key, value);
+  free(grp);
+  return ret;
+}
 
 /* --- DESTROY FUNCTIONS --- */
 
